@@ -1,5 +1,5 @@
 (* Corr/C02.v — references and built-ins denote the reference semantics. *)
-From Verif Require Import Base.Bytes Base.Wire Model.Chain Model.GoText Model.Eval Corr.EvalWire Corr.C01.
+From Verif Require Import Base.Bytes Base.Wire Model.Chain Model.GoText Model.Eval Model.Interp Corr.EvalWire Corr.C01.
 
 (* claims the generator attaches to a program: what the property demands of the result *)
 Inductive claim :=
@@ -143,7 +143,57 @@ Definition dec_claim (x : sexp) : option claim :=
   | _ => None
   end.
 
-Definition decode (x : sexp) : option case :=
+(* ---------------- the interpolation / property-path parser (Model/Interp.v vs ast.Interpolate) ---------------- *)
+Record icase := {
+  i_text : string;                                  (* the scalar as written *)
+  i_parts : list (string * option path);            (* what ast.Interpolate returned *)
+  i_ndiags : N;
+  i_strings : list string;                          (* PropertyAccess.String() of every access, in order *)
+  i_want : option (list (string * option path))     (* round-trip direction: the parts this text was rendered from *)
+}.
+
+Definition acc_eqb (a b : accessor) : bool :=
+  match a, b with
+  | AName x, AName y | AKey x, AKey y => String.eqb x y
+  | AIdx i, AIdx j => Z.eqb i j
+  | _, _ => false
+  end.
+
+Fixpoint list_eqb {A} (f : A -> A -> bool) (l l' : list A) : bool :=
+  match l, l' with
+  | [], [] => true
+  | x :: r, y :: r' => f x y && list_eqb f r r'
+  | _, _ => false
+  end.
+
+Definition part_eqb (a b : string * option path) : bool :=
+  String.eqb (fst a) (fst b)
+  && match snd a, snd b with
+     | None, None => true
+     | Some p, Some q => list_eqb acc_eqb p q
+     | _, _ => false
+     end.
+
+Definition imismatch (c : icase) : bool :=
+  let '(ps, n) := parse_interp (i_text c) in
+  negb (list_eqb part_eqb ps (i_parts c)) || negb (n =? i_ndiags c)
+  || negb (list_eqb String.eqb
+             (concat (map (fun p => match snd p with Some q => [print_path q] | None => [] end) (i_parts c)))
+             (i_strings c))
+  || match i_want c with Some w => negb (String.eqb (print_interp w) (i_text c)) | None => false end.
+
+(* the documented behaviour, on the implementation alone: a rendering of printable parts ($$ for a literal $) is read back
+   as exactly those parts, without diagnostics *)
+Definition ispec_fail (c : icase) : bool :=
+  match i_want c with
+  | Some w => negb (list_eqb part_eqb w (i_parts c)) || negb (i_ndiags c =? 0)
+  | None => false
+  end.
+
+Inductive anycase := CProg (c : case) | CInterp (c : icase).
+
+Definition decode_prog (x : sexp) : option case :=
+
   match x with
   | SList [Atom "c02"; n; d; w; o; o2; SList cls] =>
       match atom_str n, dec_envdef d, dec_world w with
@@ -158,7 +208,29 @@ Definition decode (x : sexp) : option case :=
   | _ => None
   end.
 
-Definition verdict (c : case) : N :=
-  verdict_bits (mismatch c) (spec_fail_new c) (spec_fail_known c) (nontrivial c).
+Definition dec_parts (x : sexp) : option (list (string * option path)) := slist_of dec_part x.
+
+Definition decode (x : sexp) : option anycase :=
+  match x with
+  | SList [Atom "interp"; t; ps; n; SList strs; want] =>
+      match atom_str t, dec_parts ps, atom_N n, map_opt atom_str strs with
+      | Some t, Some ps, Some n, Some strs =>
+          match want with
+          | Atom "none" => Some (CInterp {| i_text := t; i_parts := ps; i_ndiags := n; i_strings := strs; i_want := None |})
+          | w => match dec_parts w with
+                 | Some w => Some (CInterp {| i_text := t; i_parts := ps; i_ndiags := n; i_strings := strs; i_want := Some w |})
+                 | None => None
+                 end
+          end
+      | _, _, _, _ => None
+      end
+  | _ => option_map CProg (decode_prog x)
+  end.
+
+Definition verdict (c : anycase) : N :=
+  match c with
+  | CProg c => verdict_bits (mismatch c) (spec_fail_new c) (spec_fail_known c) (nontrivial c)
+  | CInterp c => verdict_bits (imismatch c) (ispec_fail c) false true
+  end.
 
 Definition run_line : string -> string := run_with decode verdict.
